@@ -71,9 +71,67 @@ static int record_bracket(Rng& g, bool quick, Trace& T)
 	return 0;
 }
 
+// whole executions of Find_Minimum / Find_Maximum against spec/Trace_FindMin.tla (Bracket.tla, then BrentCore.tla); no hook involved
+static int record_findmin(Rng& g, bool quick, Trace& T)
+{
+	int n = quick ? 800 : 12000;
+	for(int i = 0; i < n; i++)
+	{
+		int fam	 = (int)g.range(0, 5);
+		double c = (g.coin() ? 1 : -1) * g.logu(1e-3, 1e3), s = g.logu(1e-3, 1e3), f0 = g.coin(0.3) ? 0.0 : g.uni(-5, 5), w = g.uni(2, 9);
+		std::function<double(double)> f;
+		switch(fam)
+		{
+			case 0: f = [=](double x) { double t = (x - c) / s; return f0 + t * t; }; break;
+			case 1: f = [=](double x) { double t = (x - c) / s; return f0 + t * t * t * t; }; break;
+			case 2: f = [=](double x) { double t = (x - c) / s; return f0 + std::cosh(std::max(-300.0, std::min(300.0, t))); }; break;
+			case 3: f = [=](double x) { double t = (x - c) / s; return f0 + std::sqrt(1.0 + t * t); }; break;
+			case 4: f = [=](double x) { double t = (x - c) / s; return f0 + 0.05 * t * t + std::sin(w * t); }; break;	  // many local minima
+			default: f = [=](double x) { double t = (x - c) / s; return f0 + std::fabs(t) + (t > 0 ? 2.0 * t : 0.0); }; break;	// kink, two slopes
+		}
+		bool uni  = fam != 4;
+		bool maxi = g.coin(0.3);	// Find_Maximum of -f
+		double d = s * g.logu(1e-3, 1e2), xa = c + (g.coin() ? 1 : -1) * d, xb = xa + (g.coin() ? 1 : -1) * s * g.logu(1e-3, 30);
+		double tol = std::pow(10.0, -g.uni(3, 12));
+		if(xa == xb)
+			continue;
+		std::vector<double> xs, fs;
+		std::function<double(double)> wrapped = [&](double x) { double v = f(x); xs.push_back(x); fs.push_back(v); return maxi ? -v : v; };
+		intent("Find_Minimum (trace) fam " + std::to_string(fam));
+		double ret = maxi ? Find_Maximum(wrapped, xa, xb, tol) : Find_Minimum(wrapped, xa, xb, tol);
+		bool fin = std::isfinite(ret);
+		for(double v : fs)
+			fin = fin && std::isfinite(v);
+		if(!fin || xs.size() > 400)
+			continue;
+		std::vector<double> ux(xs), uf(fs);
+		std::sort(ux.begin(), ux.end());
+		ux.erase(std::unique(ux.begin(), ux.end()), ux.end());
+		std::sort(uf.begin(), uf.end());
+		uf.erase(std::unique(uf.begin(), uf.end()), uf.end());
+		auto rank = [](const std::vector<double>& u, double v) {
+			auto it = std::lower_bound(u.begin(), u.end(), v);
+			return (it != u.end() && *it == v) ? (int)(it - u.begin()) + 1 : 0;
+		};
+		T.emit({{"e", "MStart"}, {"fam", fam}, {"k", (int)xs.size()}, {"max", maxi}});
+		for(size_t k = 0; k < xs.size(); k++)
+			T.emit({{"e", "BEval"}, {"x", rank(ux, xs[k])}, {"f", rank(uf, fs[k])}});
+		T.emit({{"e", "MEnd"}, {"r", rank(ux, ret)}, {"uni", uni}});
+	}
+	T.flush();
+	finished();
+	return 0;
+}
+
 int main(int argc, char** argv)
 {
 	guard_install(1500);
+	if(argc == 5 && std::string(argv[1]) == "findmin")
+	{
+		Rng g(std::strtoull(argv[2], nullptr, 10));
+		Trace T(argv[4]);
+		return record_findmin(g, std::string(argv[3]) == "quick", T);
+	}
 	if(argc == 5 && std::string(argv[1]) == "bracket")
 	{
 		Rng g(std::strtoull(argv[2], nullptr, 10));
